@@ -334,22 +334,28 @@ def gen_op(rng, ai, pool, ctx):
     if kind == 'register':
         return {'alg': ai, 'kind': 'register', 'fn': rng.choice(regs)}
     if kind == 'symcall':
-        cands = [i for i in ctx['shared_by_alg'].get(ai, []) if ctx['shared_syms'].get(i)]
-        if cands and rng.random() < 0.7:
+        cands = [i for i in ctx['shared_by_alg'].get(ai, []) if ctx['shared_syms'].get(i) is not None]
+        u = rng.random()
+        vals8 = [gen_value(rng, ctx['valkind']) for _ in range(8)]
+        if cands and u < 0.5:
             i = rng.choice(cands)
-            target = {'k': 'sh', 'i': i}
-            names = ctx['shared_syms'][i]
+            return {'alg': ai, 'kind': 'symcall', 'args': [{'k': 'sh', 'i': i}],
+                    'call': {'mode': rng.choice(['autopos', 'autokw']), 'vals': vals8}}
+        if u < 0.8 and not pool.graded:
+            # a fresh symbolic expression (a new object every time, same key set as others in the pool)
+            target = gen_symexpr(rng, ai, pool)
+            return {'alg': ai, 'kind': 'symcall', 'args': [target],
+                    'call': {'mode': rng.choice(['autopos', 'autokw']), 'vals': vals8}}
+        keys, _ = pool.pick_keys(rng)
+        keys = list(keys) or [pool.canon[0]]
+        nm = rng.choice(['x', 'y'])
+        if pool.graded:
+            gs = sorted({grade(k) for k in keys})
+            keys = [k for k in pool.canon if grade(k) in gs]
+            target = {'k': 'sym', 'name': nm, 'grades': gs}
         else:
-            keys, _ = pool.pick_keys(rng)
-            keys = list(keys) or [pool.canon[0]]
-            nm = rng.choice(['x', 'y'])
-            if pool.graded:
-                gs = sorted({grade(k) for k in keys})
-                keys = [k for k in pool.canon if grade(k) in gs]
-                target = {'k': 'sym', 'name': nm, 'grades': gs}
-            else:
-                target = {'k': 'sym', 'name': nm, 'keys': keys}
-            names = sorted(f'{nm}{pool.name[k][1:]}' for k in keys)
+            target = {'k': 'sym', 'name': nm, 'keys': keys}
+        names = sorted(f'{nm}{pool.name[k][1:]}' for k in keys)
         vals = [gen_value(rng, ctx['valkind']) for _ in names]
         mode = rng.choice(['kw', 'pos'])
         return {'alg': ai, 'kind': 'symcall', 'args': [target],
@@ -357,26 +363,37 @@ def gen_op(rng, ai, pool, ctx):
     raise ValueError(kind)
 
 
+def gen_symexpr(rng, ai, pool):
+    """Recipe of a symbolic multivector with non-trivial coefficient expressions (2*u, u+v, u*v, ...)."""
+    k1, _ = pool.pick_keys(rng)
+    k1 = list(k1) or [pool.canon[-1]]
+    a = {'k': 'sym', 'name': rng.choice(['u', 'x']), 'keys': k1}
+    u = rng.random()
+    if u < 0.4:
+        op = {'alg': ai, 'kind': 'bin', 'op': 'gp', 'form': 'infix',
+              'args': [{'k': 'num', 'v': rng.choice([2, 3, -1, 5])}, a]}
+    elif u < 0.7:
+        b = {'k': 'sym', 'name': rng.choice(['v', 'y']), 'keys': k1 if rng.random() < 0.6 else (list(pool.pick_keys(rng)[0]) or k1)}
+        op = {'alg': ai, 'kind': 'bin', 'op': rng.choice(['add', 'sub']), 'form': 'method', 'args': [a, b]}
+    else:
+        k2, _ = pool.pick_keys(rng)
+        b = {'k': 'sym', 'name': rng.choice(['v', 'y']), 'keys': list(k2) or k1}
+        op = {'alg': ai, 'kind': 'bin', 'op': rng.choice(['gp', 'op', 'ip']), 'form': 'method', 'args': [a, b]}
+    return {'k': 'opres', 'op': op}
+
+
 def gen_shared(rng, ai, pool, ctx):
     """A shared operand (the same object is handed to several callers).  Returns (spec, free-symbol
     names or None)."""
     u = rng.random()
-    if u < 0.35 and not pool.graded:
+    if u < 0.25 and not pool.graded:
         keys, _ = pool.pick_keys(rng)
         keys = list(keys) or [pool.canon[-1]]
         nm = rng.choice(['x', 'y'])
         names = sorted(f'{nm}{pool.name[k][1:]}' for k in keys)
         return {'alg': ai, 'recipe': {'k': 'sym', 'name': nm, 'keys': keys}}, names
     if u < 0.5 and not pool.graded:
-        k1, _ = pool.pick_keys(rng)
-        k2, _ = pool.pick_keys(rng)
-        k1 = list(k1) or [pool.canon[-1]]
-        k2 = list(k2) or [pool.canon[0]]
-        opn = rng.choice(['gp', 'add', 'op', 'ip'])
-        op = {'alg': ai, 'kind': 'bin', 'op': opn, 'form': 'method',
-              'args': [{'k': 'sym', 'name': 'x', 'keys': k1}, {'k': 'sym', 'name': 'y', 'keys': k2}]}
-        names = None      # free symbols of the product are discovered at run time (positional call only)
-        return {'alg': ai, 'recipe': {'k': 'opres', 'op': op}}, names
+        return {'alg': ai, 'recipe': gen_symexpr(rng, ai, pool)}, []
     r = gen_operand(rng, pool, ai, ctx, allow_sym=False, allow_shared=False)
     return {'alg': ai, 'recipe': r}, None
 
@@ -491,7 +508,7 @@ def gen_trace(rng, tier='quick', crit_names=(), arm=None):
         for _ in range(rng.choice([0, 1, 2, 3])):
             spec, names = gen_shared(rng, ai, pools[ai], ctx)
             ctx['shared_by_alg'].setdefault(ai, []).append(len(shared))
-            if names:
+            if names is not None:
                 ctx['shared_syms'][len(shared)] = names
             shared.append(spec)
 
